@@ -1,11 +1,19 @@
-"""C06 (ring buffer)"""
+"""C06 — the ring buffer never deadlocks or loses a wake-up; write, drain and join terminate."""
 import re
 from framework import Case
 import ring_common as R
 
 PROP = 'C06'
-BUILDS, TRANSLATORS, MINIMISE, SHARD_TIMEOUT, ASSUMPTIONS, RULE = R.BUILDS, R.TRANSLATORS, R.MINIMISE, R.SHARD_TIMEOUT, R.ASSUMPTIONS, R.RULE
-EXTRA_THEOREM_MODULES = R.EXTRA_THEOREM_MODULES
+BUILDS, TRANSLATORS, MINIMISE, SHARD_TIMEOUT, RULE = R.BUILDS, R.TRANSLATORS, R.MINIMISE, R.SHARD_TIMEOUT, R.RULE
+ASSUMPTIONS = R.ASSUMPTIONS + [
+    'termination theorems assume a fair schedule: spin strategy — weak fairness (every thread of the topology is scheduled '
+    'infinitely often); blocking strategy — weak fairness plus strong fairness of lock acquisition (a thread whose lock / '
+    're-acquisition after cvar.wait is enabled infinitely often eventually takes it): an assumption about std::sync::Mutex and '
+    'the OS scheduler; real-time bounds are not modelled',
+    'termination theorems cover the single-producer sequencer with batches 1 <= b <= N; multi-producer runs are judged by the '
+    'oracle on the implementation events only (known finding F11)',
+]
+EXTRA_THEOREM_MODULES = ['DcVerif.Lemmas.Ring', 'DcVerif.Lemmas.FairTermination', 'DcVerif.Lemmas.RingLive']
 classify, nontrivial = R.classify, R.nontrivial
 
 
@@ -19,13 +27,13 @@ def generate(rng, tier):
 
 
 def signatures(case, lines):
+    """F11: a multi-producer run that does not end because a written sequence whose `write` call has returned was
+    stranded below the cursor (out-of-order publication); every other non-ok end stays a violation"""
     out = []
     for l in lines:
-        m = re.search(r'delivered≠published kind=(\S+) missing=\[([^\]]*)\] extra=\[\] producer=(\w+)', l)
-        if m and m.group(3) == 'single' and m.group(2).strip() == '0':
-            out.append({'producer': 'single', 'missing': [0]})
-        elif m and m.group(3) == 'multi' and m.group(1) == 'stranded-tail':
-            out.append({'producer': 'multi', 'kind': 'stranded-tail'})
+        m = re.search(r'run ended with status (\w+) kind=(\S+) producer=(\w+)', l)
+        if m and m.group(1) != 'ok' and m.group(2) == 'multi-stranded' and m.group(3) == 'multi':
+            out.append({'producer': 'multi', 'kind': 'multi-stranded'})
         else:
             out.append(None)
     return out
